@@ -4,7 +4,7 @@
    the commit of Model/Create.v).  The manifest *file name* (NNNN_<folder>_<UTC>Z.mhl) is not modelled: it is checked on
    the implementation by the oracle. *)
 From Coq Require Import Sorting.Sorted.
-From MHL Require Import Model.Create Gen.Generated Proofs.BaseFacts Proofs.CommitFacts Proofs.HistFacts.
+From MHL Require Import Model.Commands Gen.Generated Proofs.BaseFacts Proofs.CommitFacts Proofs.HistFacts Proofs.FreshFacts.
 
 Theorem C06_commit_writes_after_commit : forall C cdig ser (old : hist C) doc p par,
   mkHist C (h_files C old ++ [mkMfile C (g_no doc) (ser doc) doc])
@@ -44,6 +44,20 @@ Proof. exact reload_ascending. Qed.
 Theorem C06_reload_sorted_any_listing : forall C (h : hist C), Sorted (le gen_leb) (loaded_gens C h).
 Proof. exact reload_sorted_any_order. Qed.
 Print Assumptions C06_reload_ascending.
+
+(* END TO END for a tree whose only history is the root's (any number n of prior generations): the create command leaves
+   all n manifests in place, adds exactly one numbered n+1, extends the chain by exactly one matching entry, and the
+   history is well-formed again *)
+Theorem C06_create_appends_one_generation : forall Hb matches C cdig ser old kids h0 n req no_dh ip ifl,
+  load C cdig (Dir (Some old) kids) = inl [h0] -> wellformed C cdig n old -> req <> [] ->
+  let run := create_folder Hb matches C cdig ser (Dir (Some old) kids) req no_dh false ip ifl in
+  o_outcome (snd run) <> Abort ->
+  exists doc, o_written (snd run) = [([], doc)] /\ g_no doc = N.of_nat (S n) /\
+    fst run = Dir (Some (after_commit C cdig ser old doc)) kids /\
+    wellformed C cdig (S n) (after_commit C cdig ser old doc) /\
+    (exists new, h_files C (after_commit C cdig ser old doc) = h_files C old ++ [new]).
+Proof. exact create_flat_appends. Qed.
+Print Assumptions C06_create_appends_one_generation.
 
 (* non-vacuity *)
 Example C06_three_commits :
